@@ -28,12 +28,14 @@ Expected(c) == StratifiedModelFuel(RulesOf(c), SetOf(c.edb), Fuel(c))
 Verdict(c, v) ==
   IF ~AllSafe(c) THEN (IF v.outcome = "ok" THEN "ACCEPTED_UNSAFE" ELSE "fine")
   ELSE IF ~Stratifiable(RulesOf(c)) THEN (IF v.outcome = "ok" THEN "ACCEPTED_UNSTRATIFIABLE" ELSE "fine")
+  ELSE IF HasErr(RulesOf(c), Expected(c)) THEN "fine"   \* run-time kind error: no model to compare with
   ELSE CASE v.outcome = "ok" -> IF SetOf(v.got) = Expected(c) THEN "fine" ELSE "MODEL_MISMATCH"
          [] v.outcome = "strat_err" -> "SPURIOUS_STRAT_ERR"
          [] v.outcome \in {"eval_err", "panic"} -> "EVAL_FAILURE"
          [] OTHER -> "fine"
 
-Class(c) == IF ~AllSafe(c) THEN "unsafe" ELSE IF ~Stratifiable(RulesOf(c)) THEN "unstrat" ELSE "model"
+Class(c) == IF ~AllSafe(c) THEN "unsafe" ELSE IF ~Stratifiable(RulesOf(c)) THEN "unstrat"
+            ELSE IF HasErr(RulesOf(c), Expected(c)) THEN "typeerr" ELSE "model"
 
 Bad(c) == {i \in DOMAIN c.variants : Verdict(c, c.variants[i]) # "fine"}
 
